@@ -105,7 +105,7 @@ SPECS = {
     "C03": dict(modules=["Ovldverif.Props.C03"], streams=["fn", "fn_static"], oracle="C03"),
     "C04": dict(modules=["Ovldverif.Props.C04"], streams=["table_static", "table_rich", "fn", "dep_f"], oracle="C04"),
     "C05": dict(modules=["Ovldverif.Props.C05", "Ovldverif.Props.C16"], streams=["table_static", "table_rich", "fn", "fn_types", "graph"], oracle="C05"),
-    "C06": dict(modules=["Ovldverif.Props.C06", "Ovldverif.Props.C10"], streams=["table_static", "fn_static", "levels", "levels_rich", "dep_f", "dep_lit_f"], oracle="C06"),
+    "C06": dict(modules=["Ovldverif.Props.C06", "Ovldverif.Props.C10", "Ovldverif.Props.C02Twin"], streams=["table_static", "fn_static", "levels", "levels_rich", "dep_f", "dep_lit_f"], oracle="C06"),
     "C07": dict(modules=["Ovldverif.Props.C07", "Ovldverif.Props.C07Chain", "Ovldverif.Props.C02Twin"], streams=["table_static", "fn_static", "levels", "graph", "dep_f", "dep_lit_f"], oracle="C07"),
     "C20": dict(modules=["Ovldverif.Props.C20", "Ovldverif.Props.C20Build", "Ovldverif.Props.C20Graph"], streams=["table_rich", "fn", "dep_f", "fn_types", "graph", "conc_first"], oracle="C20"),
     "C09": dict(modules=["Ovldverif.Props.C09", "Ovldverif.Props.C09Stmt"], streams=["rewrite", "rewrite_struct"], oracle="C09"),
